@@ -42,6 +42,18 @@ type HasFuncDocs interface {
 	FuncDocs() *FuncDoc
 }
 
+// requiredCount returns the number of required parameters, the ones before
+// the first lambda list keyword.
+func (fd *FuncDoc) requiredCount() (cnt int) {
+	for _, a := range fd.Args {
+		if 0 < len(a.Name) && a.Name[0] == '&' {
+			break
+		}
+		cnt++
+	}
+	return
+}
+
 func (fd *FuncDoc) getArg(name string) *DocArg {
 	for _, a := range fd.Args {
 		if a.Name == name {
